@@ -290,6 +290,7 @@ func (v *verifier) genTables() string {
 			}
 		}
 	}
+	sb.WriteString("(define-fun bwidth ((b S_bsr_BSR)) Int (- (f_S_bsr_BSR_rightExtent b) (f_S_bsr_BSR_leftExtent b)))\n(declare-fun realNode (S_bsr_BSR) Bool)\n")
 	// handler registry as a total function
 	var ks []int64
 	for k := range t.handlers {
@@ -468,4 +469,86 @@ func (v *verifier) builtinObligations() []*Obligation {
 	out = append(out, &Obligation{Name: "exec.builtinFunctions/readable", Fn: "exec.builtinFunctions", Kind: "structural", Goal: goal,
 		Src: "the table literal is in the shape the extractor understands " + strings.Join(errs, "; "), Props: []string{"C04", "C06", "C07", "C12", "C02", "C11"}, tr: emptyTrans(v)})
 	return out
+}
+
+// genForest renders the prelude module "genforest" (opt-in: recursions over the parse forest): which nonterminals
+// the children of a multi-alternate nonterminal can have, and the extent facts that serve as termination measure.
+func (v *verifier) genForest() string {
+	t := v.tabs
+	var sb strings.Builder
+	sb.WriteString(";; genforest: generated on every run from grammar/parser/slot\n;; requires: gentables\n")
+	cnt := map[int64]int{}
+	same := map[int64]bool{}
+	for _, si := range t.slots {
+		if int(si.Pos) != len(si.Symbols) {
+			continue
+		}
+		if c, ok := cnt[si.NT]; ok {
+			if c != si.ntCount() {
+				same[si.NT] = false
+			}
+		} else {
+			cnt[si.NT] = si.ntCount()
+			same[si.NT] = true
+		}
+	}
+	var nts []int64
+	for k := range cnt {
+		nts = append(nts, k)
+	}
+	sort.Slice(nts, func(i, j int) bool { return nts[i] < nts[j] })
+	// nonterminals with several alternates that all have the same number of nonterminal symbols: the i-th child is
+	// of one of the nonterminals the alternates name at that position (A-BSR)
+	byNT := map[int64][]slotInfo{}
+	for _, si := range t.slots {
+		if int(si.Pos) == len(si.Symbols) {
+			byNT[si.NT] = append(byNT[si.NT], si)
+		}
+	}
+	for _, k := range nts {
+		alts := byNT[k]
+		if len(alts) < 2 || !same[k] || cnt[k] == 0 {
+			continue
+		}
+		for idx := 0; idx < cnt[k]; idx++ {
+			var opts []string
+			seenOpt := map[int64]bool{}
+			for _, si := range alts {
+				j := 0
+				for _, sy := range si.Symbols {
+					if sy.IsNT {
+						if j == idx && !seenOpt[sy.Val] {
+							seenOpt[sy.Val] = true
+							opts = append(opts, fmt.Sprintf("(= (labelNT (f_S_bsr_BSR_Label (ntchild b %d))) %d)", idx, sy.Val))
+						}
+						j++
+					}
+				}
+			}
+			fmt.Fprintf(&sb, "(assert (forall ((b S_bsr_BSR)) (! (=> (= (labelNT (f_S_bsr_BSR_Label b)) %d) (or %s)) :pattern ((ntchild b %d) (labelNT (f_S_bsr_BSR_Label b))))))\n", k, strings.Join(opts, " "), idx)
+		}
+	}
+	// extents (A-BSR): the nonterminal children of a node the parser returned (realNode) are such nodes again and
+	// span a part of its input - a proper part when every alternate of its nonterminal contains a terminal symbol.
+	// Used as the measure of recursions over the forest.
+	sb.WriteString("(assert (forall ((b S_bsr_BSR)) (! (=> (realNode b) (>= (bwidth b) 0)) :pattern ((realNode b)))))\n")
+	sb.WriteString("(assert (forall ((b S_bsr_BSR) (i Int)) (! (=> (and (realNode b) (<= 0 i) (< i (labelNNT (f_S_bsr_BSR_Label b)))) (and (realNode (ntchild b i)) (<= (bwidth (ntchild b i)) (bwidth b)))) :pattern ((realNode b) (ntchild b i)))))\n")
+	for _, k := range nts {
+		allT := true
+		for _, si := range byNT[k] {
+			hasT := false
+			for _, sy := range si.Symbols {
+				if !sy.IsNT {
+					hasT = true
+				}
+			}
+			if !hasT {
+				allT = false
+			}
+		}
+		if allT && (cnt[k] > 0 || !same[k]) {
+			fmt.Fprintf(&sb, "(assert (forall ((b S_bsr_BSR) (i Int)) (! (=> (and (realNode b) (= (labelNT (f_S_bsr_BSR_Label b)) %d) (<= 0 i) (< i (labelNNT (f_S_bsr_BSR_Label b)))) (< (bwidth (ntchild b i)) (bwidth b))) :pattern ((realNode b) (ntchild b i)))))\n", k)
+		}
+	}
+	return sb.String()
 }
